@@ -73,14 +73,15 @@ def Env.raiseBusy (e : Env) : Env :=
   | [] => { e with busy := 0 }
   | d :: ds => { e with busy := d, sched := ds }
 
-/-- a burst of transfers under the fault budget -/
+/-- a burst of transfers under the fault budget (a burst of zero bytes is zero transfers; the
+    event is kept so that the trace has one event per interface call; `canon` drops it) -/
 def burst (e : Env) (dc : Bool) (chunk : Nat) (bytes : List UInt8) : List Ev × Env × Bool :=
   let n := nTransfers chunk bytes.length
   match e.fault with
-  | none => (if bytes.isEmpty then [] else [Ev.w dc chunk bytes], e, true)
+  | none => ([Ev.w dc chunk bytes], e, true)
   | some k =>
     if n ≤ k then
-      (if bytes.isEmpty then [] else [Ev.w dc chunk bytes], { e with fault := some (k - n) }, true)
+      ([Ev.w dc chunk bytes], { e with fault := some (k - n) }, true)
     else
       ((if k = 0 then [] else [Ev.w dc chunk (bytes.take (k * chunk))])
           ++ [Ev.fail dc (min chunk (bytes.length - k * chunk))],
@@ -178,16 +179,13 @@ def applyUpds (d : DState) : List Act → DState
 
 /-! ## Views of an event list -/
 
-/-- the individual SPI transfers a burst stands for -/
+/-- the individual SPI transfers a burst stands for (`fuel` = an upper bound of the length) -/
+def chunksAux (chunk : Nat) : Nat → List UInt8 → List (List UInt8)
+  | 0, _ => []
+  | fuel + 1, bs => if bs = [] then [] else bs.take chunk :: chunksAux chunk fuel (bs.drop chunk)
+
 def chunks (chunk : Nat) (bs : List UInt8) : List (List UInt8) :=
-  if h : chunk = 0 ∨ bs = [] then (if bs = [] then [] else [bs])
-  else bs.take chunk :: chunks chunk (bs.drop chunk)
-termination_by bs.length
-decreasing_by
-  have h1 : 0 < chunk := by omega
-  have h2 : bs ≠ [] := fun hh => h (Or.inr hh)
-  have : 0 < bs.length := List.length_pos_iff.mpr h2
-  simp only [List.length_drop]; omega
+  if chunk = 0 then (if bs = [] then [] else [bs]) else chunksAux chunk bs.length bs
 
 /-- every SPI transfer of a trace as (D/C level, bytes) -/
 def transfers : List Ev → List (Bool × List UInt8)
